@@ -666,7 +666,7 @@ lists split over several PDUs) ; sampled over segment sizes {16,24,32,64}, the l
     let n2 = scripts2.len() as u64;
     ctx.drive_indexed(&part, n2, true, |i| build(&scripts2[i as usize]));
     // sampled variations
-    let total = ctx.tier.pick(60_000u64, 400_000);
+    let total = ctx.tier.pick(60_000u64, 1_500_000);
     let seed = ctx.seed;
     ctx.section = "sampled-variations".into();
     ctx.drive_indexed(&part, total, false, |i| {
